@@ -1,9 +1,13 @@
 use crate::core::Ctx;
 pub mod c01;
+pub mod c03;
+pub mod c04;
 
 pub fn run(ctx: &Ctx) -> bool {
     match ctx.id.as_str() {
         "C01" => c01::run(ctx),
+        "C03" => c03::run(ctx),
+        "C04" => c04::run(ctx),
         _ => return false,
     }
     true
